@@ -21,14 +21,16 @@
 (* Abstractions: crypto is symbolic (a stage-2 message answers exactly one *)
 (* stage-1 message; a data message opens only under the tunnel created     *)
 (* from the same pair); a certificate is the identity of its owner node    *)
-(* (CertAddrs, Trusts); an underlay address is the node that listens on   *)
+(* (InitCert/RespCert, Trusts); an underlay address is the node that listens on   *)
 (* it.                                                                     *)
 (***************************************************************************)
 EXTENDS Integers, Sequences, FiniteSets, TLC
 
 CONSTANTS Nodes,        \* node names
           Addrs,        \* overlay addresses
-          CertAddrs,    \* [Nodes -> Seq(Addrs)] networks of each node's certificate, in certificate order
+          InitCert,     \* [Nodes -> Seq(Addrs)] networks of the certificate a node presents when it initiates, in certificate order
+          RespCert,     \* [Nodes -> Seq(Addrs)] ... and when it responds (a node holding a v1 and a v2 certificate presents different ones)
+          Own,          \* [Nodes -> SUBSET Addrs] the node's own overlay addresses (all its certificates)
           Trusts,       \* [Nodes -> SUBSET Nodes] whose certificates verify against the node's CA pool
           Route,        \* [Nodes -> [Addrs -> Seq(Nodes)]] underlay destinations known for an overlay address
           Idx,          \* candidate local indexes (never 0)
@@ -40,7 +42,6 @@ CONSTANTS Nodes,        \* node names
 NoNode == "none"
 Range(f) == {f[x] : x \in DOMAIN f}
 SetOf(seq) == {seq[i] : i \in 1..Len(seq)}
-CertSet(c) == SetOf(CertAddrs[c])
 
 VARIABLES clock,
           msgs,     \* Seq of datagram contents; a datagram's identity is its position
@@ -58,10 +59,10 @@ vars == <<clock, msgs, pend, tuns, hosts, out, tunout, sends, timers, early>>
 
 -----------------------------------------------------------------------------
 (* helpers *)
-Hs1(src, idx, t)            == [kind |-> "hs1", src |-> src, sess |-> 0, initIdx |-> idx, respIdx |-> 0, time |-> t, key |-> <<0, 0>>, ctr |-> 0]
-Hs2(src, sess, ii, ri, t)   == [kind |-> "hs2", src |-> src, sess |-> sess, initIdx |-> ii, respIdx |-> ri, time |-> t, key |-> <<0, 0>>, ctr |-> 0]
-Data(src, ridx, key, ctr)   == [kind |-> "data", src |-> src, sess |-> 0, initIdx |-> 0, respIdx |-> ridx, time |-> 0, key |-> key, ctr |-> ctr]
-Ctl(kind, src, ridx, key, ctr) == [kind |-> kind, src |-> src, sess |-> 0, initIdx |-> 0, respIdx |-> ridx, time |-> 0, key |-> key, ctr |-> ctr]
+Hs1(src, idx, t)            == [kind |-> "hs1", cert |-> InitCert[src], src |-> src, sess |-> 0, initIdx |-> idx, respIdx |-> 0, time |-> t, key |-> <<0, 0>>, ctr |-> 0]
+Hs2(src, sess, ii, ri, t)   == [kind |-> "hs2", cert |-> RespCert[src], src |-> src, sess |-> sess, initIdx |-> ii, respIdx |-> ri, time |-> t, key |-> <<0, 0>>, ctr |-> 0]
+Data(src, ridx, key, ctr)   == [kind |-> "data", cert |-> <<>>, src |-> src, sess |-> 0, initIdx |-> 0, respIdx |-> ridx, time |-> 0, key |-> key, ctr |-> ctr]
+Ctl(kind, src, ridx, key, ctr) == [kind |-> kind, cert |-> <<>>, src |-> src, sess |-> 0, initIdx |-> 0, respIdx |-> ridx, time |-> 0, key |-> key, ctr |-> ctr]
 
 PendIdx(n)  == {pend[n][a].idx : a \in DOMAIN pend[n]} \ {0}
 MainIdx(n)  == DOMAIN tuns[n]
@@ -140,7 +141,7 @@ NewPending(q) == [ready |-> FALSE, idx |-> 0, tries |-> 0, hs1 |-> 0, queued |->
 \* inside packet for a: send on the primary tunnel, or queue behind the pending handshake, or start one
 TunSend(n, a) ==
     /\ sends < MaxTunSends /\ sends' = sends + 1
-    /\ a \notin CertSet(n)
+    /\ a \notin Own[n]
     /\ tunout' = 0 /\ UNCHANGED early
     /\ IF a \in DOMAIN hosts[n]
          THEN LET t == tuns[n][Primary(n, a)] IN
@@ -180,13 +181,13 @@ Retry(n, a, k) ==
 RecvHs1(n, id, via) ==
     LET m == msgs[id]
         c == m.src
-        va == CertAddrs[c]
+        va == m.cert
         first == va[1]
     IN
     /\ m.kind = "hs1"
     /\ tunout' = 0
     /\ UNCHANGED <<clock, pend, sends, timers, early>>
-    /\ IF c \notin Trusts[n] \/ CertSet(c) \cap CertSet(n) # {}
+    /\ IF c \notin Trusts[n] \/ SetOf(va) \cap Own[n] # {}
          THEN NoEmit /\ UNCHANGED <<msgs, tuns, hosts>>            \* certificate refused / "myself"
        ELSE IF first \in DOMAIN hosts[n] /\ \E k \in 1..Len(hosts[n][first]) : tuns[n][hosts[n][first][k]].hs1 = id
          THEN \* ErrAlreadySeen: only the cached reply is resent
@@ -207,7 +208,7 @@ RecvHs1(n, id, via) ==
                 ELSE LET rid == Len(msgs) + 1
                          t == [lidx |-> i, ridx |-> m.initIdx, addrs |-> va, peer |-> c, init |-> FALSE,
                                hsTime |-> m.time, hs1 |-> id, hs2 |-> rid, key |-> <<id, rid>>, remote |-> via,
-                               tx |-> 2, rx |-> {}]
+                               tx |-> 2, rx |-> {}, roamFrom |-> NoNode, roamAt |-> 0]
                          r == AddTunnel(n, t)
                      IN /\ msgs' = Append(msgs, Hs2(n, id, m.initIdx, i, clock))
                         /\ hosts' = [hosts EXCEPT ![n] = r[1]]
@@ -229,11 +230,11 @@ RecvHs2(n, id, via) ==
               IN
               IF m.sess # p.hs1
                 THEN NoEmit /\ tunout' = 0 /\ UNCHANGED <<msgs, pend, tuns, hosts, timers>>  \* not the answer to our stage 1: rejected, nothing changes
-              ELSE IF c \notin Trusts[n] \/ CertSet(c) \cap CertSet(n) # {}
+              ELSE IF c \notin Trusts[n] \/ SetOf(m.cert) \cap Own[n] # {}
                 THEN \* invalid certificate / "myself": the handshake is abandoned
                      /\ pend' = [pend EXCEPT ![n] = without]
                      /\ NoEmit /\ tunout' = 0 /\ UNCHANGED <<msgs, tuns, hosts, timers>>
-              ELSE IF a \notin CertSet(c)
+              ELSE IF a \notin SetOf(m.cert)
                 THEN \* wrong host answered: close towards it, block that underlay address, start over with the queue
                      LET key == <<p.hs1, id>>
                          np  == [NewPending(p.queued) EXCEPT !.blocked = p.blocked \cup {via}]
@@ -253,9 +254,9 @@ RecvHs2(n, id, via) ==
                         /\ UNCHANGED <<tuns, hosts>>
               ELSE \* Complete: the pending entry becomes a tunnel, queued packets are released in order
                    LET key == <<p.hs1, id>>
-                       t == [lidx |-> p.idx, ridx |-> m.respIdx, addrs |-> CertAddrs[c], peer |-> c, init |-> TRUE,
+                       t == [lidx |-> p.idx, ridx |-> m.respIdx, addrs |-> m.cert, peer |-> c, init |-> TRUE,
                              hsTime |-> m.time, hs1 |-> p.hs1, hs2 |-> 0, key |-> key, remote |-> via,
-                             tx |-> 2 + p.queued, rx |-> {}]
+                             tx |-> 2 + p.queued, rx |-> {}, roamFrom |-> NoNode, roamAt |-> 0]
                        r == AddTunnel(n, t)
                    IN /\ pend' = [pend EXCEPT ![n] = without]
                       /\ hosts' = [hosts EXCEPT ![n] = r[1]]
@@ -265,23 +266,30 @@ RecvHs2(n, id, via) ==
                       /\ tunout' = 0 /\ UNCHANGED timers
 
 (* ---- data / test / close received ---- *)
+\* handleHostRoaming: an authenticated packet from another underlay address moves the tunnel there, unless it is a
+\* move back to the previous address within the suppression time (RoamingSuppressSeconds = 2 s = 20 ticks)
+RoamSuppress == 20
+Roamed(t, via) == IF via = t.remote THEN t
+                  ELSE IF t.roamFrom = via /\ clock - t.roamAt < RoamSuppress THEN t
+                  ELSE [t EXCEPT !.remote = via, !.roamFrom = t.remote, !.roamAt = clock]
+
 RecvData(n, id, via) ==
     LET m == msgs[id] IN
     /\ m.kind \in {"data", "test", "testreply", "close"}
     /\ UNCHANGED <<clock, pend, sends, timers, early>>
     /\ IF m.respIdx \in DOMAIN tuns[n] /\ tuns[n][m.respIdx].key = m.key /\ tuns[n][m.respIdx].peer = m.src
           /\ m.ctr \notin tuns[n][m.respIdx].rx
-         THEN LET t == tuns[n][m.respIdx] IN
+         THEN LET t == [Roamed(tuns[n][m.respIdx], via) EXCEPT !.rx = @ \cup {m.ctr}] IN
               CASE m.kind = "data" ->
-                     /\ tuns' = [tuns EXCEPT ![n][t.lidx].rx = @ \cup {m.ctr}]
+                     /\ tuns' = [tuns EXCEPT ![n][t.lidx] = t]
                      /\ tunout' = 1 /\ NoEmit /\ UNCHANGED <<msgs, hosts>>
                 [] m.kind = "test" ->
                      /\ msgs' = Append(msgs, Ctl("testreply", n, t.ridx, t.key, t.tx + 1))
-                     /\ tuns' = [tuns EXCEPT ![n][t.lidx].rx = @ \cup {m.ctr}, ![n][t.lidx].tx = t.tx + 1]
+                     /\ tuns' = [tuns EXCEPT ![n][t.lidx] = [t EXCEPT !.tx = t.tx + 1]]
                      /\ Emit(<<[id |-> Len(msgs) + 1, to |-> t.remote]>>)
                      /\ tunout' = 0 /\ UNCHANGED hosts
                 [] m.kind = "testreply" ->
-                     /\ tuns' = [tuns EXCEPT ![n][t.lidx].rx = @ \cup {m.ctr}]
+                     /\ tuns' = [tuns EXCEPT ![n][t.lidx] = t]
                      /\ tunout' = 0 /\ NoEmit /\ UNCHANGED <<msgs, hosts>>
                 [] m.kind = "close" ->
                      LET r == DelTunnel(hosts[n], tuns[n], t.lidx) IN
@@ -321,14 +329,14 @@ IndexesDisjoint == \A n \in Nodes : MainIdx(n) \cap PendIdx(n) = {} /\ 0 \notin 
 C09_Bound == \A n \in Nodes : \A a \in DOMAIN hosts[n] : \A k \in 1..Len(hosts[n][a]) :
                LET t == tuns[n][hosts[n][a][k]] IN
                  /\ t.peer \in Trusts[n]                        \* created from a certificate that verified
-                 /\ a \in CertSet(t.peer)                      \* ... which lists a
-                 /\ SetOf(t.addrs) = CertSet(t.peer)           \* and the tunnel serves exactly that certificate's addresses
-                 /\ CertSet(t.peer) \cap CertSet(n) = {}       \* never one of my own addresses
+                 /\ t.addrs \in {InitCert[t.peer], RespCert[t.peer]}   \* the tunnel serves exactly that certificate's addresses
+                 /\ a \in SetOf(t.addrs)                              \* ... which lists a
+                 /\ SetOf(t.addrs) \cap Own[n] = {}                   \* never one of my own addresses
 \* an initiator's pending handshake for a is completed only by a certificate listing a
 C09_Initiator == [][\A n \in Nodes : \A a \in DOMAIN pend[n] :
                       (a \notin DOMAIN pend'[n] \/ pend'[n][a].hs1 # pend[n][a].hs1) /\ pend[n][a].ready
                       /\ pend[n][a].idx \in DOMAIN tuns'[n] /\ pend[n][a].idx \notin DOMAIN tuns[n]
-                      => a \in CertSet(tuns'[n][pend[n][a].idx].peer)]_vars
+                      => a \in SetOf(tuns'[n][pend[n][a].idx].addrs)]_vars
 
 (* C10: replayed handshakes (the "only resends the cached reply" clause is the AlreadySeen branch of RecvHs1) *)
 \* the time rule: the primary of an address created as responder is never displaced by an older-or-equal stage 1
